@@ -34,6 +34,8 @@ THEOREMS = [
     "Pydjinni.Front.resolveLoop_spec",
     "Pydjinni.Front.regs_walkContents",
     "Pydjinni.Front.file_registers_iff",
+    "Pydjinni.Front.get_stable",
+    "Pydjinni.Front.lexicalLookup_stable",
 ]
 LEVEL = "proof"
 
